@@ -218,6 +218,10 @@ func runFront(cases []frontCase, outDir string) {
 				} else {
 					named = "unnamed"
 				}
+				// the positions the library reports: they must be those of the front end itself
+				for _, m := range apiPosRe.FindAllStringSubmatch(err.Error(), -1) {
+					named += " (" + m[1] + " " + m[2] + ")"
+				}
 			}
 		}()
 		rs.WriteString(" (api " + named + "))")
@@ -225,6 +229,8 @@ func runFront(cases []frontCase, outDir string) {
 		fmt.Fprintln(rw, rs.String())
 	}
 }
+
+var apiPosRe = regexp.MustCompile(`p\.patch:(\d+):(\d+)`)
 
 func readFrontCases(path string) []frontCase {
 	f, err := os.Open(path)
